@@ -4,6 +4,8 @@ usage: bin/confirm_seed.py Cxx n   (reads /tmp/seed-Cxx/out/n, works in the scra
 Confirms: (a) patch applies and the 14 tests pass with it, (b) demo fails with it, (c) demo passes without it."""
 import json, os, re, shutil, subprocess, sys
 pid, n = sys.argv[1], sys.argv[2]
+dest_n = sys.argv[3] if len(sys.argv) > 3 else n   # optional: file under a different index (round 2: n+3)
+ROUND = os.environ.get('SEED_ROUND', '1')
 W = '/tmp/seed-%s' % pid
 O = '%s/out/%s' % (W, n)
 def sh(cmd, timeout=1800):
@@ -56,12 +58,12 @@ res['needs'] = ''
 res['notes_head'] = notes[:1500]
 print(json.dumps({k: v for k, v in res.items() if k not in ('notes_head', 'demo_output_with_patch')}, indent=1))
 if res['confirmed']:
-    D = '/verif/seeded/%s-%s' % (pid, n)
+    D = '/verif/seeded/%s-%s' % (pid, dest_n)
     os.makedirs(D, exist_ok=True)
     for f in ('patch.diff', 'demo.cc', 'demo.sh', 'notes.md'):
         if os.path.exists(O + '/' + f):
             shutil.copy(O + '/' + f, D + '/' + f)
-    meta = {'property': pid, 'origin': 'independent sub-agent given only the property text and a scratch worktree',
+    meta = {'property': pid, 'round': ROUND, 'origin': 'independent sub-agent given only the property text and a scratch worktree',
             'breaks': pid, 'needs_to_manifest': '(see notes.md)', 'confirmed_by': 'bin/confirm_seed.py: applied in scratch worktree, rebuilt, ctest 14/14 pass with the change, demo exit %s with the change, demo exit 0 without it' % rc1,
             'demo_cmd': cmd.replace(W, '<worktree>'), 'demo_exit_with_patch': rc1, 'demo_exit_without_patch': rc0, 'tests_pass_with_patch': True}
     json.dump(meta, open(D + '/meta.json', 'w'), indent=1)
